@@ -5,6 +5,8 @@ props=[json.loads(l) for l in open('/verif/properties.jsonl')]
 ENV="GOFLAGS=-mod=mod GOPROXY=off GOSUMDB=off GOTOOLCHAIN=local"
 SIM="the scripted in-memory connection, reference broker (independent MQTT 3.1.1 codec) and instrumented Persistence of /verif/harness/sim model network, broker and store faithfully; faults are realistic (see DESIGN.md section 3 conventions)"
 checks={
+ "C06":("exploration","runtime monitoring: differential oracle (reference stream expectation, all fragmentations agree) over exhaustive single-cut/single-stall fragmentations of generated streams at small read buffers, sampled at 128 KiB",
+        "Held on the fragmentations run: for each generated well-formed stream every single cut position, every single cut followed by a progress-making expiry, 1-byte reads, the coalesced whole and PRNG multi-cut plans gave exactly the reference (topic, payload / BigMessage Topic, Size, ReadAll) list and the reference acknowledgement bytes, with no ReadSlices error. Exhaustive in cut position per stream at small buffers; streams themselves are sampled.","3/C06"),
  "C02":("fault_enumeration","runtime monitoring: crash-point enumeration over recorded (store, broker) snapshots, AdoptSession on each, byte-exact resend oracle, up to 3 generations, wrap positioning",
         "Held on the stop points enumerated: at every recorded snapshot of the Persistence (after each Save/Delete, with the reference broker's state of the same instant) AdoptSession returned without warnings and the first connection resumed exactly the pending records, in order, at the right stage, with their identifiers; new publishes continued the sequence; all completed; exactly-once messages were forwarded once across generations. Stop points come from PRNG fault episodes, so the enumeration is complete per episode (within the per-episode cap), not over all histories.","3/C02"),
  "C01":("fault_enumeration","runtime monitoring: trace oracles over PRNG-scripted fault episodes (real client, simulated conn/broker/store), race detector on",
